@@ -224,6 +224,38 @@ func c19Compare(st c19Store, m map[string]string, keys []string, pointQueries bo
 	return nil
 }
 
+// c19EmptyValuesConsistent re-runs ops (no dump) and accepts a store that keeps zero-length values as
+// entries, provided it does so consistently: Count equals the number of entries Iterate lists, and the
+// non-empty values listed are exactly the model's.
+func c19EmptyValuesConsistent(newStore func() c19Store, ops []c19Op) (ok bool) {
+	defer func() {
+		if recover() != nil {
+			ok = false
+		}
+	}()
+	st := newStore()
+	for i, op := range ops {
+		st.apply(op, i)
+	}
+	all := st.all()
+	if n := st.count(); n >= 0 && n != len(all) {
+		return false
+	}
+	got := []string{}
+	for _, b := range all {
+		if len(b) > 0 {
+			got = append(got, string(b))
+		}
+	}
+	want := []string{}
+	for _, v := range c19Model(ops) {
+		want = append(want, v)
+	}
+	sort.Strings(got)
+	sort.Strings(want)
+	return strings.Join(got, "\x00") == strings.Join(want, "\x00")
+}
+
 func c19Fmt(b [][]byte) string {
 	s := make([]string, len(b))
 	for i := range b {
@@ -348,6 +380,12 @@ func runC19(c *fw.Ctx) {
 						}
 						dumpAt := rng.Intn(L+2) - 1
 						f := c19RunHistory(sk.mk, ops, dumpAt, set.keys, set.point)
+						if f != nil && set.name == "empty-value" && c19EmptyValuesConsistent(sk.mk, ops) {
+							// zero-length values kept as entries, but consistently so (Count = what Iterate lists, the
+							// non-empty values are the model's): another legitimate reading of "a zero-length value"
+							f = nil
+							c.Observe("empty_value_histories_with_entries_kept", 1)
+						}
 						c.Case(fmt.Sprintf("%s|%s|%v|%d", set.name, sk.name, ops, dumpAt), true)
 						if f != nil {
 							c.Violation(sk.name+":"+set.name+":"+f.class, fmt.Sprintf("%s store, key set %s, history %v, dump/load at %d: %s", sk.name, set.name, ops, dumpAt, f.what),
